@@ -218,6 +218,200 @@ theorem OpInfo.signed_zero_ne (o : OpInfo) (c : Ctx) :
   rw [V.eq_false_iff] at this
   exact this h
 
+/-- The anchor clause "observably different payloads must not be equal" for the CSE key, in the
+direction the pass relies on: equal `OperationInfo`s have equal attribute dictionaries, equal
+property dictionaries, equal result types and operands — value by value, not hash by hash. -/
+theorem OpInfo.eq_refines {a b : OpInfo} (h : OpInfo.eq a b = true) :
+    V.eq a.attrs b.attrs = true ∧ V.eq a.props b.props = true
+      ∧ V.eqList a.resultTypes b.resultTypes = true ∧ a.operands = b.operands := by
+  rw [(OpInfo.eq_iff a b).1 h]
+  exact ⟨eq_refl _, eq_refl _, (V.eqList_iff _ _).2 rfl, rfl⟩
+
+/-! ## hash equality is not equality
+
+The hash values of the model are exact where CPython's collide systematically (`pyIntHash`), so
+the model separates `==` from `hash ==`: the theorems below exhibit the whole class of colliding
+payloads the harness generates (`attr.hash_collisions`, `op.hash_collisions`). -/
+
+/-- `hash(-1) == hash(-2)` -/
+theorem pyIntHash_neg_one_neg_two : pyIntHash (-1) = pyIntHash (-2) := by decide
+
+/-- `hash(v) == hash(v + (2^61 - 1))` for every non-negative `v` … -/
+theorem pyIntHash_add_mersenne {v : Int} (h : 0 ≤ v) : pyIntHash (v + (2 ^ 61 - 1)) = pyIntHash v := by
+  have h1 : ¬ (v + (2 ^ 61 - 1) < 0) := by omega
+  have h2 : ¬ (v < 0) := by omega
+  have h3 : (v + (2 ^ 61 - 1)).toNat = v.toNat + (2 ^ 61 - 1 : Int).toNat := by omega
+  simp only [pyIntHash, h1, h2, if_false, h3, Nat.add_mod_right]
+
+/-- … and `hash(v) == hash(v - (2^61 - 1))` for every negative `v`. -/
+theorem pyIntHash_sub_mersenne {v : Int} (h : v < 0) : pyIntHash (v - (2 ^ 61 - 1)) = pyIntHash v := by
+  have h1 : v - (2 ^ 61 - 1) < 0 := by omega
+  have h3 : (-(v - (2 ^ 61 - 1))).toNat = (-v).toNat + (2 ^ 61 - 1 : Int).toNat := by omega
+  simp only [pyIntHash, h1, h, if_true, h3, Nat.add_mod_right]
+
+/-- Equal hashes of a sub-attribute give equal hashes of every enclosing attribute (the tuple hash
+is a function of the component hashes): a collision at an `int` propagates through `IntAttr`,
+`IntegerAttr`, `ArrayAttr`, `DictionaryAttr` items … -/
+theorem plug_hash_congr (c : Ctx) {a b : V} (h : V.hash a = V.hash b) :
+    V.hash (c.plug a) = V.hash (c.plug b) := by
+  induction c with
+  | hole => exact h
+  | node t pre c post ih =>
+    have hl : V.hashList (pre ++ c.plug a :: post) = V.hashList (pre ++ c.plug b :: post) := by
+      simp [V.hashList_eq_map, ih]
+    cases t with
+    | tup => simp [Ctx.plug, V.hash, hl]
+    | fset => simp [Ctx.plug, V.hash, hl]
+    | obj cls => simp [Ctx.plug, V.hash, hl]
+    | dict =>
+      have hne : ∀ x : V, pre ++ x :: post ≠ [] := by intro x; simp
+      simp only [Ctx.plug]
+      cases ha : pre ++ c.plug a :: post with
+      | nil => exact absurd ha (hne _)
+      | cons xa ra =>
+        cases hb : pre ++ c.plug b :: post with
+        | nil => exact absurd hb (hne _)
+        | cons xb rb =>
+          rw [ha, hb] at hl
+          simp only [V.hash, hl]
+
+/-- "hash equality is not equality": under any nesting, the attribute holding `-1` and the one
+holding `-2` hash equally and are NOT equal. -/
+theorem hash_collision_ne (c : Ctx) :
+    V.hash (c.plug (.leaf (.int (-1)))) = V.hash (c.plug (.leaf (.int (-2))))
+      ∧ V.eq (c.plug (.leaf (.int (-1)))) (c.plug (.leaf (.int (-2)))) = false :=
+  ⟨plug_hash_congr c (by simp [V.hash, Leaf.hash, pyIntHash_neg_one_neg_two]),
+   int_distinct_ne c (by decide)⟩
+
+/-- The same for the Mersenne twins `v` and `v + (2^61 - 1)` (e.g. `0 : i64` and
+`2305843009213693951 : i64`). -/
+theorem hash_collision_mersenne_ne (c : Ctx) {v : Int} (h : 0 ≤ v) :
+    V.hash (c.plug (.leaf (.int (v + (2 ^ 61 - 1))))) = V.hash (c.plug (.leaf (.int v)))
+      ∧ V.eq (c.plug (.leaf (.int (v + (2 ^ 61 - 1))))) (c.plug (.leaf (.int v))) = false :=
+  ⟨plug_hash_congr c (by simp only [V.hash, Leaf.hash, pyIntHash_add_mersenne h]),
+   int_distinct_ne c (by omega)⟩
+
+/-- Two operations that differ only in attribute values with colliding hashes have the same
+`OperationInfo` hash and are nevertheless different CSE keys: `OperationInfo.__eq__` must compare
+the values (`arith.constant -1` is not `arith.constant -2`). -/
+theorem OpInfo.hash_collision_ne (o : OpInfo) (c : Ctx) :
+    OpInfo.hash { o with attrs := c.plug (.leaf (.int (-1))) }
+        = OpInfo.hash { o with attrs := c.plug (.leaf (.int (-2))) }
+      ∧ OpInfo.eq { o with attrs := c.plug (.leaf (.int (-1))) }
+                  { o with attrs := c.plug (.leaf (.int (-2))) } = false := by
+  refine ⟨by simp only [OpInfo.hash, (Xdsl.AttrValue.hash_collision_ne c).1], ?_⟩
+  rw [← Bool.not_eq_true, OpInfo.eq_iff]
+  intro e
+  have h := congrArg OpInfo.attrs e
+  have := (Xdsl.AttrValue.hash_collision_ne c).2
+  rw [V.eq_false_iff] at this
+  exact this h
+
+/-- … and likewise in the properties (`value = -1 : i32` of `arith.constant`). -/
+theorem OpInfo.hash_collision_props_ne (o : OpInfo) (c : Ctx) :
+    OpInfo.hash { o with props := c.plug (.leaf (.int (-1))) }
+        = OpInfo.hash { o with props := c.plug (.leaf (.int (-2))) }
+      ∧ OpInfo.eq { o with props := c.plug (.leaf (.int (-1))) }
+                  { o with props := c.plug (.leaf (.int (-2))) } = false := by
+  refine ⟨by simp only [OpInfo.hash, (Xdsl.AttrValue.hash_collision_ne c).1], ?_⟩
+  rw [← Bool.not_eq_true, OpInfo.eq_iff]
+  intro e
+  have h := congrArg OpInfo.props e
+  have := (Xdsl.AttrValue.hash_collision_ne c).2
+  rw [V.eq_false_iff] at this
+  exact this h
+
+/-- the property dictionary `{value = v : i32}` of an `arith.constant` -/
+def constProps (v : Int) : V :=
+  .node .dict [.node .tup [.leaf (.str [118, 97, 108, 117, 101]),
+    mkAttr "IntegerAttr" [mkAttr "IntAttr" [.leaf (.int v)], mkAttr "IntegerType" [.leaf (.int 32)]]]]
+
+/-- COUNTEREXAMPLE for a comparison that trusts the hash (keys compared, values left to
+`hash(self) == hash(other)`): it identifies `arith.constant -1 : i32` and `arith.constant -2 : i32`,
+whose payloads differ observably — so the hash conjunct of `OperationInfo.__eq__` cannot replace
+`attributes == …` / `properties == …`. -/
+theorem HashOnly.opInfoEq_counterexample :
+    let a : OpInfo := { name := [99], attrs := .node .dict [], props := constProps (-1),
+                        resultTypes := [], operands := [], regions := [] }
+    let b : OpInfo := { a with props := constProps (-2) }
+    HashOnly.opInfoEq a b = true ∧ OpInfo.eq a b = false ∧ V.eq a.props b.props = false := by
+  decide +kernel
+
+/-! ## the bf16 encoder keeps what the type can hold
+
+`BFloat16Type._encode` is the one hand-written encoder among the IEEE-like builtin types (the
+others go through `struct`); every bf16 `FloatAttr`, dense array and dense elements attribute is
+rounded through it.  `f` is the binary32 bit pattern of the value. -/
+
+theorem bf16Encode_lt (f : Nat) : bf16Encode f < 2 ^ 16 := by
+  unfold bf16Encode
+  split
+  · simp only []
+    split <;> omega
+  · omega
+
+/-- "NaNs with different bit patterns are not equal" needs the encoder to keep the SIGN of a NaN:
+the sign bit of the bf16 pattern is the sign bit of the binary32 NaN. -/
+theorem bf16Encode_nan_sign {f : Nat} (hf : f < 2 ^ 32) (hn : f % 2 ^ 31 > 0x7F800000) :
+    bf16Encode f / 2 ^ 15 = f / 2 ^ 31 := by
+  unfold bf16Encode
+  rw [if_pos hn]
+  simp only []
+  split <;> omega
+
+/-- a NaN stays a NaN (exponent all ones, fraction non-zero), quiet bit set -/
+theorem bf16Encode_nan_is_nan {f : Nat} (_hf : f < 2 ^ 32) (hn : f % 2 ^ 31 > 0x7F800000) :
+    bf16Encode f % 2 ^ 15 > 0x7F80 ∧ bf16Encode f / 64 % 2 = 1 := by
+  unfold bf16Encode
+  rw [if_pos hn]
+  simp only []
+  split <;> omega
+
+/-- the payload bits of a NaN that bf16 can hold (the six below the quiet bit) are kept -/
+theorem bf16Encode_nan_payload {f : Nat} (_hf : f < 2 ^ 32) (hn : f % 2 ^ 31 > 0x7F800000) :
+    bf16Encode f % 64 = f / 2 ^ 16 % 64 := by
+  unfold bf16Encode
+  rw [if_pos hn]
+  simp only []
+  split <;> omega
+
+/-- Every bf16 bit pattern other than a signalling NaN survives decode-then-encode: zeros with
+their sign, subnormals, normals, infinities and all quiet NaNs with sign and payload.  Hence two
+different such patterns are different float payloads (`float_bits_distinct_ne`) of different
+attributes. -/
+theorem bf16Encode_decode {p : Nat} (hp : p < 2 ^ 16)
+    (hq : p % 2 ^ 15 ≤ 0x7F80 ∨ p / 64 % 2 = 1) : bf16Encode (bf16Decode p) = p := by
+  have e3 : (p * 2 ^ 16 + 0x7FFF + p % 2) / 2 ^ 16 = p := by clear hp hq; omega
+  have e2 : p * 2 ^ 16 % 2 ^ 31 = (p % 2 ^ 15) * 2 ^ 16 := by clear hp hq e3; omega
+  have e1 : p * 2 ^ 16 / 2 ^ 16 = p := Nat.mul_div_cancel p (Nat.two_pow_pos 16)
+  have e4 : p % 2 ^ 16 = p := Nat.mod_eq_of_lt hp
+  unfold bf16Encode bf16Decode
+  rw [e1, e2, e3, e4]
+  split
+  · simp only []
+    split <;> omega
+  · rfl
+
+/-- the encoder is injective on the patterns it must keep apart (decode is a section of it) -/
+theorem bf16Decode_injective {p q : Nat} (h : bf16Decode p = bf16Decode q) : p = q := by
+  unfold bf16Decode at h
+  omega
+
+/-- `-nan` and `nan` (binary32 `0xFFC00000` / `0x7FC00000`) are the different bf16 patterns
+`0xFFC0` / `0x7FC0`. -/
+theorem bf16Encode_signed_nan : bf16Encode 0xFFC00000 = 0xFFC0 ∧ bf16Encode 0x7FC00000 = 0x7FC0 := by
+  decide
+
+/-- rounding is to nearest, ties to even, on the upper half: the distance to the value is at most
+half a unit of the last kept place (non-NaN, no overflow of the 16 bits) -/
+theorem bf16Encode_nearest {f : Nat} (_hf : f < 2 ^ 32) (hn : f % 2 ^ 31 ≤ 0x7F800000)
+    (ho : f + 0x8000 < 2 ^ 32) :
+    bf16Encode f * 2 ^ 16 ≤ f + 2 ^ 15 ∧ f ≤ bf16Encode f * 2 ^ 16 + 2 ^ 15 := by
+  have e3 : (f + 0x7FFF + f / 2 ^ 16 % 2) / 2 ^ 16 < 2 ^ 16 := by omega
+  unfold bf16Encode
+  rw [if_neg (by omega), Nat.mod_eq_of_lt e3]
+  omega
+
 /-! ## the unfixed `FloatData.__eq__` violated the property -/
 
 /-- The comparison of the unfixed code (`(isnan a and isnan b) or a == b`) identifies `0.0` and
